@@ -73,6 +73,8 @@ inductive Arr where
   | msPred        -- the local MS_pred_Q13[ 2 ]
   | delayBuf0     -- channel_state[ 0 ].resampler_state.delayBuf[ 48 ]
   | delayBuf1     -- channel_state[ 1 ].resampler_state.delayBuf[ 48 ]
+  | tmp0          -- samplesOut1_tmp[ 0 ] = the first frame_length + 2 elements of the storage          dec_API.c:316
+  | tmp1          -- samplesOut1_tmp[ 1 ] = the second frame_length + 2 elements (nChannelsInternal = 2)  dec_API.c:317
   deriving DecidableEq, Repr
 
 def Arr.name : Arr → String
@@ -87,13 +89,13 @@ def Arr.name : Arr → String
   | .ltpVqPtrs => "LTP_vq_ptrs" | .ltpVq0 => "LTP_vq_0" | .ltpVq1 => "LTP_vq_1" | .ltpVq2 => "LTP_vq_2"
   | .ltpScales => "LTPScales" | .tmpStore => "samplesOut1_tmp_storage1" | .out2 => "samplesOut2_tmp"
   | .samplesOut => "samplesOut" | .sMid => "sMid" | .sSide => "sSide" | .predPrev => "pred_prev_Q13"
-  | .msPred => "MS_pred_Q13" | .delayBuf0 => "delayBuf0" | .delayBuf1 => "delayBuf1"
+  | .msPred => "MS_pred_Q13" | .delayBuf0 => "delayBuf0" | .delayBuf1 => "delayBuf1" | .tmp0 => "tmp0" | .tmp1 => "tmp1"
 
 def Arr.all : List Arr :=
   [.sLTP, .sLTP_Q15, .res_Q14, .sLPC_Q14, .exc_Q14, .outBuf, .sLPC_Q14_buf, .predCoef, .ltpCoef, .gains,
    .pitchL, .xq, .pulses, .aTmp, .quantOffsets, .sLTP_Q14, .exc_buf, .plcLtp, .prevLPC, .prevGain, .aPlc, .attTab,
    .cngExcBuf, .cngSmthNlsf, .cngSynth, .cngSig, .prevNlsf, .gainsIdx, .ltpIdx, .nlsfIdx, .ltpVqPtrs, .ltpVq0, .ltpVq1,
-   .ltpVq2, .ltpScales, .tmpStore, .out2, .samplesOut, .sMid, .sSide, .predPrev, .msPred, .delayBuf0, .delayBuf1]
+   .ltpVq2, .ltpScales, .tmpStore, .out2, .samplesOut, .sMid, .sSide, .predPrev, .msPred, .delayBuf0, .delayBuf1, .tmp0, .tmp1]
 
 /-- One access: elements `[lo, hi)` of `arr`, read or written. -/
 structure Acc where
@@ -172,6 +174,8 @@ def Arr.size (c : Cfg) : Arr → Int
   | .msPred => 2
   | .delayBuf0 => SilkSynth.szDelayBuf
   | .delayBuf1 => SilkSynth.szDelayBuf
+  | .tmp0 => c.frameLen + 2
+  | .tmp1 => if c.nChInt = 2 then c.frameLen + 2 else 0
 
 /-- The access lies inside the array. -/
 def Acc.inBounds (c : Cfg) (a : Acc) : Prop := 0 ≤ a.lo ∧ a.hi ≤ a.arr.size c
@@ -311,6 +315,29 @@ def coreAccesses (x : CoreIn) : List Acc × Bool :=
       rd .sLPC_Q14 0 SilkSynth.maxLpcOrder ++ wrt .sLPC_Q14_buf 0 SilkSynth.maxLpcOrder),       -- :241
    r.2.1)
 
+/-! ### initialised-before-read: the LTP state `sLTP_Q15` (a fresh stack array in every call) -/
+
+/-- Sub-frames `k, k+1, …` of silk_decode_core with `pos` = sLTP_buf_idx and `[wlo, pos)` the part of `sLTP_Q15`
+    written so far: `true` iff every read of `sLTP_Q15` hits an element written earlier in the same call.
+    Re-whitening writes `[pos - lag - 2, pos)` (decode_core.c:164-166); the rescaling loop (:170-172) reads that
+    range; the prediction of output sample `i` reads `pos + i - lag + 2 - j`, j = 0..4 (:180-189), which must lie at
+    or above `wlo` and strictly below the element being written, i.e. `lag ≥ 3`. -/
+def initLoop (x : CoreIn) : Nat → Nat → Int → Int → Bool
+  | 0, _, _, _ => true
+  | n + 1, k, pos, wlo =>
+    if voicedAt x k then
+      let lag := lagOf x k
+      let lo := pos - (lag + SilkSynth.ltpOrder / 2)
+      let rew := decide (k = 0 ∨ (k = 2 ∧ x.interp))
+      let wlo1 := if rew ∧ lo < pos then min wlo lo else wlo
+      let okAdj := rew || !(x.adjNe.getD k false) || decide (pos ≤ lo) || decide (wlo1 ≤ lo)
+      let okLtp := decide (wlo1 ≤ lo) && decide (3 ≤ lag)
+      okAdj && okLtp && initLoop x n (k + 1) (pos + x.cfg.subfr) wlo1
+    else initLoop x n (k + 1) pos wlo
+
+/-- silk_decode_core never reads an element of `sLTP_Q15` it has not written in the same call. -/
+def coreInitOk (x : CoreIn) : Bool := initLoop x x.nbSubfr 0 x.cfg.ltpMem x.cfg.ltpMem
+
 /-! ### extents (what the tie compares) -/
 
 /-- `(min index, max index)` over the accesses of kind `wr` to `a`; `none` if there is none. -/
@@ -329,5 +356,9 @@ def extStr : Option (Int × Int) → String
 /-- `name:r=lo..hi,w=lo..hi` for every array in `arrs`. -/
 def extentsStr (l : List Acc) (arrs : List Arr) : String :=
   " ".intercalate (arrs.map fun a => s!"{a.name}:r={extStr (extent l a false)},w={extStr (extent l a true)}")
+
+/-- `name=size` for the arrays a call allocates with `ALLOC` (the tie compares the sizes the C code requests). -/
+def allocStr (c : Cfg) (arrs : List Arr) : String :=
+  " ".intercalate (arrs.map fun a => s!"{a.name}={a.size c}")
 
 end Opus.SilkSynthIdx
